@@ -40,8 +40,12 @@ class Contract:
         self.note = g('note', '')
         self.extended = g('extended', False)
         self.total = g('total', False)          # no exception allowed at all
+        self.modifies = g('modifies', [])       # fields of self havocked by a call
+        self.trusted = g('trusted', False)      # assumed at call sites, body not verified (listed)
         self.c03 = g('c03', False)              # also prove Truthful(result) (C03 construction site)
         self.slice_vars = g('slice_vars')       # mechanical statement slice (see slice_function)
+        if self.c03 and 'C03' not in self.props:
+            self.props.append('C03')
 
 
 def _unwrap(x):
@@ -105,6 +109,10 @@ def apply_contract(I, c, f, args, kwargs):
     for exc in c.may_raise:
         if I.ex.choose(z3.Bool(fresh_name('may_raise'))):
             raise PyRaise(VExc(exc))
+    for fld in c.modifies:
+        slf = vals.get('self')
+        if isinstance(slf, VObj):
+            slf.fields[fld] = VOpaque('havoc:' + fld)
     if c.returns is not None:
         return call_spec(I, c.returns, vals)
     if c.result_sort is None:
@@ -158,6 +166,10 @@ def verify_contract(c, timeout_ms=10000, explore_timeout_ms=3000):
     """Generate and discharge every obligation of one function against its contract."""
     rep = FunctionReport(c)
     t0 = time.time()
+    if c.trusted:
+        rep.assumptions = [f'TRUSTED contract (assumed, body not verified): {c.qual} - {(c.name)}']
+        rep.source = {}
+        return rep
     I = make_interp(explore_timeout_ms, c.extended)
     prop = c.props[0] if c.props else 'C??'
     short = c.qual.replace('serif.', '', 1)
@@ -238,7 +250,13 @@ def _explore_function(I, c, tgt, mode, prop, short):
         if outcome[0] == 'return':
             res = outcome[1]
             if c.returns is not None:
-                exp = call_spec(I, c.returns, vals)
+                try:
+                    exp = call_spec(I, c.returns, vals)
+                except PyRaise as pr:
+                    # the spec raises here but the code returned normally
+                    I.ex.prove(f'{prop}:{short}:post', z3.BoolVal(False), kind='post', exact=c.exact,
+                               meta={'spec_raises': pr.exc.pycls.__name__})
+                    return outcome
                 I.ex.prove(f'{prop}:{short}:post', veq(res, exp), kind='post', exact=c.exact)
             if c.ensures is not None:
                 ok = call_spec(I, c.ensures, dict(vals, result=res))
